@@ -29,6 +29,7 @@ type e1Scenario struct {
 	Sticky     int     `json:"sticky"`
 	PCTDepth   int     `json:"pct_depth"`
 	CondAny    bool    `json:"cond_signal_any"`
+	UnlockY    bool    `json:"unlock_yields,omitempty"`
 	Shape      string  `json:"shape"`
 }
 
@@ -291,7 +292,7 @@ func e1Exec(prop string) func(any, *simcheck.Ctx) *simcheck.Violation {
 		w := &e1World{sc: sc, prop: prop, loads: make([]int, sc.N), evals: make([]int, sc.N), finished: make([]bool, sc.N),
 			outcome: make([]error, sc.N), loadedObj: make([]Target, sc.N)}
 		cfg := simrt.Config{Sched: c.Tapes.Get("sched"), Misc: c.Tapes.Get("misc"), Strategy: sc.Strategy, StickyNum: sc.Sticky,
-			PCTDepth: sc.PCTDepth, PCTEst: 40 + 30*sc.N, NumCPU: sc.Limit, CondSignalAny: sc.CondAny, MaxSteps: 100000}
+			PCTDepth: sc.PCTDepth, PCTEst: 40 + 30*sc.N, NumCPU: sc.Limit, CondSignalAny: sc.CondAny, UnlockYields: sc.UnlockY, MaxSteps: 100000}
 		if c.Trace {
 			cfg.TraceMax = 2000
 		}
@@ -571,6 +572,7 @@ func e1Gen(r *rand.Rand, tier string) any {
 	sc.Sticky = []int{50, 90, 99}[r.IntN(3)]
 	sc.PCTDepth = 1 + r.IntN(3)
 	sc.CondAny = r.IntN(3) == 0
+	sc.UnlockY = r.IntN(3) == 0
 	return sc
 }
 
